@@ -90,5 +90,5 @@ Print Assumptions propagate_terminates.
 
 Example c05_nonvacuous :
   propagate fifo 100 [mk_add (VVar 0) (vtimes (VVar 1) (-2)) 2; mk_lin_le [2;-3] [0%nat;2%nat] 1] [[-2;0;3];[-1;1];[0;1;5]] [0%nat;1%nat]
-  = PDone [[-2; 3]; [-1; 1]; [0; 1; 5]].
+  = PDone [[-2; 0; 3]; [-1; 1]; [0; 1; 5]].
 Proof. vm_compute. reflexivity. Qed.
